@@ -9,7 +9,7 @@ def handle (op real : String) : Verdict := Id.run do
   let toks := splitNE op " "
   let v := ((toks.find? (·.startsWith "V:")).map fun t => ((t.drop 2).toString.toNat?.getD 4)).getD 4
   let o := ((toks.find? (·.startsWith "O:")).map fun t => ((t.drop 2).toString.toNat?.getD 7)).getD 7
-  let bodyHex := (toks.filter fun t => !(t.startsWith "V:" || t.startsWith "O:" || t.startsWith "M:")).head?.getD ""
+  let bodyHex := (toks.filter fun t => !(t.startsWith "V:" || t.startsWith "O:" || t.startsWith "M:" || t.startsWith "E:")).head?.getD ""
   let body : List Nat := ((unhex bodyHex).getD []).map (·.toNat)
   let rmid := v == 5 || v == 66     -- SupportsResultMetadataId
   let (part, re) : String × String :=
